@@ -136,6 +136,7 @@ class SymRepo(G.Repository):
         self.conflictF = z3.Function('conflict', z3.BitVecSort(W), z3.BitVecSort(W),
                                      z3.BitVecSort(W), z3.BoolSort())
         self.rejected = {}       # ref name -> z3 Bool (persistent per job)
+        self.refused = []        # refs whose update the server refused on this path
         self.conflicts_taken = 0
         self.no_conflicts = False   # harness assumption: merges never conflict
         self.merge_mask = 0      # fresh atoms created by (conflict-free) merges
@@ -524,6 +525,7 @@ class SymRepo(G.Repository):
                         continue
                     if self.ctx.decide(self.rej(r)):
                         failed = True
+                        self.refused.append(r)
                         continue
                     self._remote_update('delete', r)
                 elif n1 in self.tip:
@@ -534,13 +536,18 @@ class SymRepo(G.Repository):
                         ff = force or self.subset(self.cl(self.remote[n1]), self.cl(new))
                     else:
                         ff = True
-                    if not ff or self.ctx.decide(self.rej(n1)):
+                    if not ff:
                         failed = True
+                        continue
+                    if self.ctx.decide(self.rej(n1)):
+                        failed = True
+                        self.refused.append(n1)
                         continue
                     self._remote_update('update', n1, new)
                 elif n1 in self.tags:
                     if self.ctx.decide(self.rej('tag:' + n1)):
                         failed = True
+                        self.refused.append('tag:' + n1)
                         continue
                     self._remote_update('tag', n1, self.tags[n1])
                 else:
